@@ -65,6 +65,8 @@ type Scenario struct {
 	Calls     []Call     `json:"calls"`
 	Choices   []string   `json:"choices,omitempty"`    // recorded schedule (replay)
 	Polite    bool       `json:"polite,omitempty"`     // scheduling that stays out of the known check-then-act windows
+	HoldExit  string     `json:"hold_exit,omitempty"`  // this process's signalled command does not exit before a shutdown is in progress (slow to die)
+	WaitUp    bool       `json:"wait_up,omitempty"`    // the first API call after run is only issued when no thread of the supervisor can move (the project is up)
 	ParkState bool       `json:"park_state,omitempty"` // also park at the status-write trace point (inside the state mutex)
 	Note      string     `json:"note,omitempty"`
 	Seed      int64      `json:"seed"`
@@ -210,6 +212,9 @@ func (r *runState) enabled() []action {
 		if r.sigged[c] && sp.OnSignal == "later" {
 			canExit = true
 		}
+		if canExit && r.sc.HoldExit == c.Name && r.sigged[c] && !r.s.SnapshotTaken() {
+			canExit = false // still dying when the shutdown starts
+		}
 		if canExit {
 			acts = append(acts, action{key: fmt.Sprintf("exit:%d", inst), w: 4, do: func() {
 				code := 0
@@ -251,7 +256,13 @@ func (r *runState) enabled() []action {
 			}})
 		}
 	}
-	if r.nextCall < len(r.sc.Calls) {
+	settled := true
+	for _, a := range acts {
+		if strings.HasPrefix(a.key, "rel:") {
+			settled = false
+		}
+	}
+	if r.nextCall < len(r.sc.Calls) && (!r.sc.WaitUp || settled || r.nextCall != 1) {
 		acts = append(acts, action{key: fmt.Sprintf("call:%d", r.nextCall), w: 3, do: func() {
 			c := r.sc.Calls[r.nextCall]
 			id := r.nextCall
@@ -587,6 +598,7 @@ func genScenario(rng *rand.Rand, id int, kind string) *Scenario {
 		// ordered shutdown over a dependency graph in which everything is up and many commands are slow to die:
 		// a dependent that was asked to stop shortly before the shutdown is still alive when its turn comes
 		sc.Ordered = true
+		sc.WaitUp = rng.Intn(3) > 0
 		for i := range sc.Procs {
 			ps := &sc.Procs[i]
 			ps.Deps, ps.BadDir, ps.StartFail, ps.Disabled, ps.ExitOnSkipped, ps.ExitOnEnd = nil, false, false, false, false, false
@@ -642,7 +654,14 @@ func genScenario(rng *rand.Rand, id int, kind string) *Scenario {
 		// nothing lives for ever: Run() returns by itself
 	case "ordered":
 		if rng.Intn(3) > 0 {
-			sc.Calls = append(sc.Calls, Call{Op: []string{"stop", "stop", "restart"}[rng.Intn(3)], Name: sc.Procs[1+rng.Intn(len(sc.Procs)-1)].Name})
+			// the process asked to stop just before the shutdown is a dependent and slow to die
+			k := 1 + rng.Intn(len(sc.Procs)-1)
+			sc.Procs[k].OnSignal = "later"
+			op := []string{"stop", "stop", "restart"}[rng.Intn(3)]
+			if sc.WaitUp && op == "stop" {
+				sc.HoldExit = sc.Procs[k].Name
+			}
+			sc.Calls = append(sc.Calls, Call{Op: op, Name: sc.Procs[k].Name})
 		}
 		sc.Calls = append(sc.Calls, Call{Op: "shutdown"})
 	case "trigger":
